@@ -187,7 +187,9 @@ def main(tier):
         # ---- 2. schedule export (spec -> code) -----------------------------------------
         n1, n2, n3 = (70, 50, 24) if tier == "quick" else (1200, 900, 300)
         sch1, r1 = S.export_schedules(ex, scratch, 1)
-        sch2, r2 = S.export_schedules(ex, scratch, 2, kinds=("soft", "hard"), crash_pcs={"scr", "xyz", "tmp", "replace", "next", "step", "data2"})
+        # two crashes: the export runs on ONE worker (registers), so the thorough tier uses a medium lattice here, not the full one
+        ex2 = ex if tier == "quick" else S.lattice_consts(steps=(4, 6), data=(1, 2), coord=(0, 3), vel=(0,), force=(0,), xyz=(0, 1, 2), ckpt=(1, 2, 3), prnt=(1,))
+        sch2, r2 = S.export_schedules(ex2, scratch, 2, kinds=("soft", "hard"), crash_pcs={"scr", "xyz", "tmp", "replace", "next", "step", "data2"}, timeout=5400)
         if tier == "thorough":   # three crashes: exported on a small lattice (the export runs on one worker)
             ex3 = S.lattice_consts(steps=(4,), data=(1,), coord=(0, 2), vel=(0,), force=(0,), xyz=(0, 1), ckpt=(1, 2), prnt=(1,))
             sch3c, r3c = S.export_schedules(ex3, scratch, 3, kinds=("soft", "hard"), crash_pcs={"scr", "tmp", "replace", "next", "step"}, timeout=3000)
